@@ -12,17 +12,29 @@ typedef struct class_std__basic_ostream os_t;
 u8 os_buf[OS_CAPTURE + 1];
 u64 os_len;
 #endif
-_Bool os_failed;          /* sticky failbit|badbit of "the" output stream (one stream per harness) */
-u32 os_pending;           /* bytes inserted since the last flush */
+/* The stream under observation: a harness sets os_target (and os_target_ios, the address of its std::basic_ios
+   virtual base, see os_ios_of) - then only insertions into that stream are captured / counted / may fail.  With
+   os_target == 0 every stream counts. */
+void *os_target, *os_target_ios;
+_Bool os_failed;          /* sticky failbit|badbit of the observed stream */
+u32 os_pending;           /* bytes inserted into the observed stream since its last successful flush */
+u32 os_written;           /* bytes inserted into the observed stream in total */
+_Bool os_cin_good = 1;    /* state of std::cin (harness may make it arbitrary) */
+void *os_cin_ios;
+static void *os_cur;
+/* address of the basic_ios virtual base of a stream object: this + vtable[-3] (Itanium ABI vbase offset) */
+void *os_ios_of(void *os) { u8 *vt = *(u8 **)os; return (u8 *)os + *(int64_t *)(vt - 24); }
+static int os_observed(void) { return os_target == 0 || os_cur == os_target; }
 static void os_fault(void)
 {
 #ifdef OS_FAULTS
-  if (nondet_bool()) os_failed = 1;
+  if (os_observed() && nondet_bool()) os_failed = 1;
 #endif
 }
 static void os_put(u8 c)
 {
-  os_pending++;
+  if (!os_observed()) return;
+  os_pending++; os_written++;
   os_fault();
 #ifdef OS_CAPTURE
   __CPROVER_assert(os_len < OS_CAPTURE, "BOUND: ostream capture buffer full");
@@ -35,17 +47,19 @@ static void os_write(const u8 *p, u64 n)
 #ifdef OS_CAPTURE
   for (u64 i = 0; i < n; i++) os_put(p[i]);
 #else
-  os_pending += n ? 1 : 0; os_fault();
+  if (os_observed() && n) { os_pending++; os_written++; os_fault(); }
 #endif
 }
 static u64 os_strlen(const u8 *s) { u64 n = 0; while (s[n]) n++; return n; }
 
-#ifndef VERIF_NATIVE_REAL
+/* also linked into the native build against the real g++ objects: the executable's definitions preempt
+   libstdc++'s, so the same stream model (observed stream, fault injection) runs there */
 #ifdef DECL__ZSt16__ostream_insertIcSt11char_traitsIcEERSt13basic_ostreamIT_T0_ES6_PKS3_l
-os_t *_ZSt16__ostream_insertIcSt11char_traitsIcEERSt13basic_ostreamIT_T0_ES6_PKS3_l(void *os, u8 *s, u64 n) { os_write(s, n); return os; }
+void *_ZSt16__ostream_insertIcSt11char_traitsIcEERSt13basic_ostreamIT_T0_ES6_PKS3_l(void *os, u8 *s, u64 n) { os_cur = os; os_write(s, n); return os; }
 #endif
 #ifdef DECL__ZStlsISt11char_traitsIcEERSt13basic_ostreamIcT_ES5_PKc
-os_t *_ZStlsISt11char_traitsIcEERSt13basic_ostreamIcT_ES5_PKc(void *os, u8 *s) {
+void *_ZStlsISt11char_traitsIcEERSt13basic_ostreamIcT_ES5_PKc(void *os, u8 *s) {
+  os_cur = os;
 #ifdef OS_CAPTURE
   if (s) os_write(s, os_strlen(s)); else os_failed = 1;
 #else
@@ -54,19 +68,19 @@ os_t *_ZStlsISt11char_traitsIcEERSt13basic_ostreamIcT_ES5_PKc(void *os, u8 *s) {
   return os; }
 #endif
 #ifdef DECL__ZStlsIcSt11char_traitsIcESaIcEERSt13basic_ostreamIT_T0_ES7_RKNSt7__cxx1112basic_stringIS4_S5_T1_EE
-os_t *_ZStlsIcSt11char_traitsIcESaIcEERSt13basic_ostreamIT_T0_ES7_RKNSt7__cxx1112basic_stringIS4_S5_T1_EE(void *os, struct class_std____cxx11__basic_string *s)
-{ os_write(s->f0.f0, s->f1); return os; }
+void *_ZStlsIcSt11char_traitsIcESaIcEERSt13basic_ostreamIT_T0_ES7_RKNSt7__cxx1112basic_stringIS4_S5_T1_EE(void *os, struct class_std____cxx11__basic_string *s)
+{ os_cur = os; os_write(s->f0.f0, s->f1); return os; }
 #endif
 #ifdef DECL__ZStlsISt11char_traitsIcEERSt13basic_ostreamIcT_ES5_c
-os_t *_ZStlsISt11char_traitsIcEERSt13basic_ostreamIcT_ES5_c(void *os, u8 c) { os_put(c); return os; }
+void *_ZStlsISt11char_traitsIcEERSt13basic_ostreamIcT_ES5_c(void *os, u8 c) { os_cur = os; os_put(c); return os; }
 #endif
 #ifdef DECL__ZNSo3putEc
-os_t *_ZNSo3putEc(void *os, u8 c) { os_put(c); return os; }
+void *_ZNSo3putEc(void *os, u8 c) { os_cur = os; os_put(c); return os; }
 #endif
 #ifdef DECL__ZNSo5writeEPKcl
-os_t *_ZNSo5writeEPKcl(void *os, u8 *s, u64 n) { os_write(s, n); return os; }
+void *_ZNSo5writeEPKcl(void *os, u8 *s, u64 n) { os_cur = os; os_write(s, n); return os; }
 #endif
-#define OS_NUM(name, T) os_t *name(void *os, T v) { os_put('#'); return os; }
+#define OS_NUM(name, T) void *name(void *os, T v) { os_cur = os; os_put('#'); return os; }
 #ifdef DECL__ZNSolsEm
 OS_NUM(_ZNSolsEm, u64)
 #endif
@@ -86,7 +100,7 @@ OS_NUM(_ZNSolsEx, u64)
 OS_NUM(_ZNSolsEy, u64)
 #endif
 #ifdef DECL__ZNSolsEd
-os_t *_ZNSolsEd(void *os, double v) { os_put('#'); return os; }
+void *_ZNSolsEd(void *os, double v) { os_cur = os; os_put('#'); return os; }
 #endif
 #ifdef DECL__ZNSo9_M_insertImEERSoT_
 OS_NUM(_ZNSo9_M_insertImEERSoT_, u64)
@@ -104,10 +118,10 @@ OS_NUM(_ZNSo9_M_insertIyEERSoT_, u64)
 OS_NUM(_ZNSo9_M_insertIxEERSoT_, u64)
 #endif
 #ifdef DECL__ZNSo9_M_insertIdEERSoT_
-os_t *_ZNSo9_M_insertIdEERSoT_(void *os, double v) { os_put('#'); return os; }
+void *_ZNSo9_M_insertIdEERSoT_(void *os, double v) { os_cur = os; os_put('#'); return os; }
 #endif
 #ifdef DECL__ZNSo9_M_insertIPKvEERSoT_
-os_t *_ZNSo9_M_insertIPKvEERSoT_(void *os, void *v) { os_put('#'); return os; }
+void *_ZNSo9_M_insertIPKvEERSoT_(void *os, void *v) { os_cur = os; os_put('#'); return os; }
 #endif
 #ifdef DECL__ZNSolsEs
 OS_NUM(_ZNSolsEs, u16)
@@ -116,22 +130,105 @@ OS_NUM(_ZNSolsEs, u16)
 OS_NUM(_ZNSolsEt, u16)
 #endif
 #ifdef DECL__ZNSo5flushEv
-os_t *_ZNSo5flushEv(void *os) { os_fault(); if (!os_failed) os_pending = 0; return os; }
+void *_ZNSo5flushEv(void *os) { os_cur = os; if (os_observed()) { os_fault(); if (!os_failed) os_pending = 0; } return os; }
 #endif
 #ifdef DECL__ZSt4endlIcSt11char_traitsIcEERSt13basic_ostreamIT_T0_ES6_
-os_t *_ZSt4endlIcSt11char_traitsIcEERSt13basic_ostreamIT_T0_ES6_(void *os) { os_put('\n'); os_fault(); if (!os_failed) os_pending = 0; return os; }
+void *_ZSt4endlIcSt11char_traitsIcEERSt13basic_ostreamIT_T0_ES6_(void *os) { os_cur = os; os_put('\n'); if (os_observed()) { os_fault(); if (!os_failed) os_pending = 0; } return os; }
 #endif
 #ifdef DECL__ZSt5flushIcSt11char_traitsIcEERSt13basic_ostreamIT_T0_ES6_
-os_t *_ZSt5flushIcSt11char_traitsIcEERSt13basic_ostreamIT_T0_ES6_(void *os) { os_fault(); if (!os_failed) os_pending = 0; return os; }
+void *_ZSt5flushIcSt11char_traitsIcEERSt13basic_ostreamIT_T0_ES6_(void *os) { os_cur = os; if (os_observed()) { os_fault(); if (!os_failed) os_pending = 0; } return os; }
 #endif
 #ifdef DECL__ZNSolsEPFRSoS_E
-os_t *_ZNSolsEPFRSoS_E(void *os, os_t *(*f)(void *)) { return f(os); }
+void *_ZNSolsEPFRSoS_E(void *os, void *f) { return ((void *(*)(void *))f)(os); }
 #endif
 #ifdef DECL__ZNSolsEPFRSt8ios_baseS0_E
-os_t *_ZNSolsEPFRSt8ios_baseS0_E(void *os, void *f) { return os; }   /* std::hex/dec/...: numbers are '#' anyway */
+void *_ZNSolsEPFRSt8ios_baseS0_E(void *os, void *f) { return os; }   /* std::hex/dec/...: numbers are '#' anyway */
 #endif
 #ifdef DECL__ZNSolsEi
-os_t *_ZNSolsEi(void *os, u32 v) { os_put('#'); return os; }
+void *_ZNSolsEi(void *os, u32 v) { os_cur = os; os_put('#'); return os; }
 #endif
-#endif /* !VERIF_NATIVE_REAL */
+/* ---- stream state queries (std::basic_ios<char> members; extern template => out of line) ---- */
+static u32 os_state_of(void *ios)
+{
+  if (ios == os_cin_ios && os_cin_ios) return os_cin_good ? 0 : 4;
+  if (os_target_ios ? ios == os_target_ios : 1) return os_failed ? 1 : 0;   /* badbit */
+  return 0;
+}
+#ifdef DECL__ZNKSt9basic_iosIcSt11char_traitsIcEE4goodEv
+u8 _ZNKSt9basic_iosIcSt11char_traitsIcEE4goodEv(void *ios) { return os_state_of(ios) == 0; }
+#endif
+#ifdef DECL__ZNKSt9basic_iosIcSt11char_traitsIcEE4failEv
+u8 _ZNKSt9basic_iosIcSt11char_traitsIcEE4failEv(void *ios) { return (os_state_of(ios) & 5) != 0; }
+#endif
+#ifdef DECL__ZNKSt9basic_iosIcSt11char_traitsIcEE3badEv
+u8 _ZNKSt9basic_iosIcSt11char_traitsIcEE3badEv(void *ios) { return (os_state_of(ios) & 1) != 0; }
+#endif
+#ifdef DECL__ZNKSt9basic_iosIcSt11char_traitsIcEEntEv
+u8 _ZNKSt9basic_iosIcSt11char_traitsIcEEntEv(void *ios) { return (os_state_of(ios) & 5) != 0; }
+#endif
+#ifdef DECL__ZNKSt9basic_iosIcSt11char_traitsIcEEcvbEv
+u8 _ZNKSt9basic_iosIcSt11char_traitsIcEEcvbEv(void *ios) { return (os_state_of(ios) & 5) == 0; }
+#endif
+#ifdef DECL__ZNKSt9basic_iosIcSt11char_traitsIcEE7rdstateEv
+u32 _ZNKSt9basic_iosIcSt11char_traitsIcEE7rdstateEv(void *ios) { return os_state_of(ios); }
+#endif
+/* ---- std::ofstream: open may fail (os_open_ok, harness controlled); close flushes and may fail ---- */
+_Bool os_open_ok = 1;
+static _Bool os_file_open;
+#ifdef HAVE_class_std__basic_ofstream
+static int64_t os_vt_file[6] = { (int64_t)__builtin_offsetof(struct class_std__basic_ofstream, f2), 0, 0, 0, 0, 0 };
+#ifdef DECL__ZNSt14basic_ofstreamIcSt11char_traitsIcEEC1EPKcSt13_Ios_Openmode
+void _ZNSt14basic_ofstreamIcSt11char_traitsIcEEC1EPKcSt13_Ios_Openmode(void *f, u8 *path, u32 mode)
+{ *(void **)f = (void *)&os_vt_file[3]; os_file_open = os_open_ok; }
+#endif
+#ifdef DECL__ZNSt14basic_ofstreamIcSt11char_traitsIcEE7is_openEv
+u8 _ZNSt14basic_ofstreamIcSt11char_traitsIcEE7is_openEv(void *f) { return os_file_open; }
+#endif
+#ifdef DECL__ZNKSt14basic_ofstreamIcSt11char_traitsIcEE7is_openEv
+u8 _ZNKSt14basic_ofstreamIcSt11char_traitsIcEE7is_openEv(void *f) { return os_file_open; }
+#endif
+#ifdef DECL__ZNSt14basic_ofstreamIcSt11char_traitsIcEE5closeEv
+void _ZNSt14basic_ofstreamIcSt11char_traitsIcEE5closeEv(void *f)
+{ os_cur = f; if (os_observed()) { os_fault(); if (!os_failed) os_pending = 0; } os_file_open = 0; }
+#endif
+#ifdef DECL__ZNSt14basic_ofstreamIcSt11char_traitsIcEED1Ev
+void _ZNSt14basic_ofstreamIcSt11char_traitsIcEED1Ev(void *f) { os_file_open = 0; }
+#endif
+#endif
+/* ---- the standard stream objects: an Itanium-ABI vptr whose vbase-offset slot (index -3) locates basic_ios ---- */
+#ifndef VERIF_NATIVE
+static int64_t os_vt_out[6] = { 8, 0, 0, 0, 0, 0 };     /* ostream: {vptr}, basic_ios at +8 */
+static int64_t os_vt_in[6] = { 16, 0, 0, 0, 0, 0 };     /* istream: {vptr, gcount}, basic_ios at +16 */
+#ifdef DECLG__ZSt4cout
+struct class_std__basic_ostream _ZSt4cout = { .f0 = (void *)&os_vt_out[3] };
+#endif
+#ifdef DECLG__ZSt4cerr
+struct class_std__basic_ostream _ZSt4cerr = { .f0 = (void *)&os_vt_out[3] };
+#endif
+#ifdef DECLG__ZSt3cin
+struct class_std__basic_istream _ZSt3cin = { .f0 = (void *)&os_vt_in[3] };
+#endif
+#endif
+#if defined(VERIF_NATIVE) && !defined(VERIF_NATIVE_REAL)
+/* native build of the translated unit */
+static int64_t os_vt_out[6] = { 8, 0, 0, 0, 0, 0 };
+static int64_t os_vt_in[6] = { 16, 0, 0, 0, 0, 0 };
+#ifdef DECLG__ZSt4cout
+struct class_std__basic_ostream _ZSt4cout = { .f0 = (void *)&os_vt_out[3] };
+#endif
+#ifdef DECLG__ZSt4cerr
+struct class_std__basic_ostream _ZSt4cerr = { .f0 = (void *)&os_vt_out[3] };
+#endif
+#ifdef DECLG__ZSt3cin
+struct class_std__basic_istream _ZSt3cin = { .f0 = (void *)&os_vt_in[3] };
+#endif
+#endif
+#endif
+#ifdef HAVE_class_std__basic_ostream
+/* harness-side helper: a callee stub "writes" n bytes to stream os through the model */
+void os_harness_write(void *os, u32 n)
+{
+  os_cur = os;
+  for (u32 i = 0; i < n && i < 4; i++) os_put('x');
+}
 #endif
